@@ -85,6 +85,12 @@ class OMPTaskTrans(ParallelLoopTrans):
                 "containing a code block")
 
         super().validate(node, options)
+        # The collapse clause is not supported. This must be refused here
+        # as apply() only creates the directive once the tree has been
+        # modified.
+        if options and options.get("collapse") is not None:
+            raise TransformationError("Collapse attribute should not be set "
+                                      "for OMPTaskTrans")
         # Check we can apply all the required transformations on any sub
         # nodes
         root_ancestor = node.root
